@@ -122,6 +122,21 @@ class SeqNormaliser:
                 return Desc(base=f"sorted[{norm(key) if key is not None else ''}]({norm(node.args[0])})")
             if isinstance(fn, ast.Name) and fn.id == "cast" and len(node.args) == 2:
                 return self.norm_seq(node.args[1], f, depth + 1)
+            if isinstance(fn, ast.Name) and fn.id == "filter" and len(node.args) == 2:
+                # filter(pred, seq) is (x for x in seq if pred(x)); the predicate is a lambda or a one-expression function
+                pred = node.args[0]
+                lam = None
+                if isinstance(pred, ast.Lambda) and len(pred.args.args) == 1:
+                    lam = (pred.args.args[0].arg, pred.body)
+                elif isinstance(pred, ast.Name):
+                    cand = self.sm.funcs.get((f.rel, pred.id)) or next((g_ for (r_, q_), g_ in self.sm.funcs.items() if q_ == pred.id), None)
+                    if cand is not None and len(cand.node.args.args) == 1:
+                        body_ = [st for st in cand.node.body if not (isinstance(st, ast.Expr) and isinstance(st.value, ast.Constant))]
+                        if len(body_) == 1 and isinstance(body_[0], ast.Return) and body_[0].value is not None:
+                            lam = (cand.node.args.args[0].arg, body_[0].value)
+                if lam is not None:
+                    gen = ast.GeneratorExp(elt=ast.Name(lam[0], ast.Load()), generators=[ast.comprehension(target=ast.Name(lam[0], ast.Store()), iter=node.args[1], ifs=[lam[1]], is_async=0)])
+                    return self.norm_seq(ast.fix_missing_locations(gen), f, depth + 1)
             if isinstance(fn, ast.Name) and fn.id == "reversed" and node.args:
                 inner = self.norm_seq(node.args[0], f, depth + 1)
                 return Desc(base=f"reversed({inner.show()})", opaque=True)
